@@ -7,7 +7,8 @@ cd "$(dirname "$0")"
 V=$(pwd)
 export GOFLAGS=-mod=mod GOPROXY=off GOSUMDB=off GOTOOLCHAIN=local
 mkdir -p bin work evidence replays
-(cd harness && go build -tags verif -o ../bin/gentables ./cmd/gentables && go build -tags verif -o ../bin/trace ./cmd/trace)
+(cd harness && go build -tags verif -o ../bin/gentables ./cmd/gentables && go build -o ../bin/genlogic ./cmd/genlogic && go build -o ../bin/fingerprint ./cmd/fingerprint && go build -tags verif -o ../bin/trace ./cmd/trace)
 ./bin/gentables $V/lean/Pokerface/Generated
+./bin/genlogic /repo $V/lean/Pokerface/Generated
 (cd lean && lake build Pokerface pfdriver)
 echo setup done
